@@ -96,3 +96,43 @@ def f26_canonical_g(v, f):
 def f19_min_adjustment_descendant(v, f):
     """get_minimal_adjustment_set returns a set that blocks the non-causal paths but contains a descendant of X (a mediator)"""
     return v.get("expected") == "contains a descendant of X"
+
+
+# ---- C17: DBNInference.  The failing inputs are enumerated (known/C17_cases.json, generated once by
+# tools/gen_known_cases.py and committed); a violation is a known finding only if exactly this
+# (call site, template, cardinality, CPD family, query, evidence, wrong value) is listed.
+_c17 = None
+
+
+def c17_digest(v):
+    import hashlib
+
+    c = v.get("case") or {}
+    g = c.get("g") or {}
+    obs = v.get("observed")
+    if isinstance(obs, list):
+        obs = [round(float(x), 6) for x in obs]
+    else:
+        obs = str(obs)[:60]
+    key = json.dumps([v.get("site"), v.get("kind"), c.get("template"), g.get("nv"), g.get("card"), g.get("fam"), c.get("q"), c.get("e"), obs], sort_keys=True)
+    return hashlib.sha1(key.encode()).hexdigest()[:16]
+
+
+def c17_category(v):
+    o = str(v.get("observed"))
+    if v.get("kind") == "wrong-marginal" and v.get("site") in ("query", "forward_inference", "backward_inference"):
+        return "F24"
+    if v.get("kind") == "exception" and "Factors defined on clusters of variable" in o:
+        return "F24c"
+    if v.get("kind") == "exception" and v.get("site") == "DBNInference" and "CPD defined on variable not in the model" in o:
+        return "F38"
+    return None
+
+
+@predicate
+def c17_listed(v, f):
+    global _c17
+    if _c17 is None:
+        p = os.path.join(ROOT, "known", "C17_cases.json")
+        _c17 = {k: set(x) for k, x in json.load(open(p)).items()} if os.path.exists(p) else {}
+    return c17_category(v) == f["id"] and c17_digest(v) in _c17.get(f["id"], set())
